@@ -1,3 +1,4 @@
 SPECIFICATION SSpec
 INVARIANT ColumnsOK
+INVARIANT RowsOK
 INVARIANT Emit
